@@ -281,14 +281,9 @@ var findings = []kit.Finding[Case]{
 		Desc:    "a block-level content control (w:sdt around paragraphs) is skipped by the reader as an unknown body element: all its text is gone after save",
 		Trigger: func(c Case, f kit.Failure) bool { return c.Pkg.Has(foreign.FBlockSdt) },
 	},
-	{
-		ID:     kfCellOrder,
-		Clause: "C04.N5.cell-order",
-		Desc:   "a cell holding a nested table before a paragraph is written back with its paragraphs first (TableCell stores paragraphs and tables separately): text order inside the cell changes, nothing is lost",
-		// input class: some cell of the package has a nested table followed by a paragraph that carries text (the clause itself is
-		// only raised when all w:t are still present and exactly this reordering explains the saved text)
-		Trigger: func(c Case, f kit.Failure) bool { return tableBeforeTextInCell(c.Pkg.Body) },
-	},
+	// KF-C04-cell-order (a cell written back with its paragraphs before its nested tables) is fixed in /repo; the text
+	// clause now demands strict document order, so a change of order is reported by the loss clauses (the moved text
+	// is lost at its place) and has no clause of its own any more. Its witness stays a regression replay.
 	{
 		ID:      kfNestedTbl,
 		Clause:  "C04.N5." + catNestedTbl,
